@@ -1119,5 +1119,11 @@ def reload_identity(ctx):
     return res
 
 
-RULES = [reload_identity, load_pure, c01_init_stores, derived_sync_rule, c12_arg_names, fresh_load, s1_keys, s2_roundtrip, s3_plain, s4_arity, s5_none, s6_optic,
+
+def no_stale(ctx):
+    from .common import stale_cache
+    return stale_cache(ctx, 'NO-STALE-STATE', [],
+                       'the reloaded lens depends on what was loaded before', min_methods=0)
+
+RULES = [no_stale, reload_identity, load_pure, c01_init_stores, derived_sync_rule, c12_arg_names, fresh_load, s1_keys, s2_roundtrip, s3_plain, s4_arity, s5_none, s6_optic,
          s7_kwargs, plain_store, file_wrapper]
